@@ -118,7 +118,10 @@ def templates():
 
 
 FINDING_POS = ("commentTarget", "showScope", "dropDatabase")
-STATES = {"TT": (True, True, dict(database="db1", schema="s1")), "TF": (True, False, dict(database="db1")), "FF": (False, False, {})}
+STATES = {"TT": (True, True, dict(database="db1", schema="s1")), "TF": (True, False, dict(database="db1")), "FF": (False, False, {}),
+          # reached from "no database" by USE statements: a qualified USE SCHEMA, or USE DATABASE followed by USE SCHEMA
+          "UQ": (True, True, {}), "UD": (True, True, {})}
+STATE_SETUP = {"UQ": ["use schema db1.s1"], "UD": ["use database db1", "use schema s1"]}
 
 
 def render(t):
@@ -136,6 +139,10 @@ MULTI = [
 ]
 
 
+def is_first_qual(tpls, t):
+    return t["qual"] == min(u["qual"] for u in tpls if (u["fmt"], u["cause"]) == (t["fmt"], t["cause"]))
+
+
 def scen_cases():
     cases = []
     tpls = templates()
@@ -143,11 +150,13 @@ def scen_cases():
         for st in STATES:
             if t["pos"] in FINDING_POS and st != "TT":
                 continue
+            if st in STATE_SETUP and (t["pos"] in FINDING_POS or not is_first_qual(tpls, t) or t["variant"] == "cte"):
+                continue  # the USE-reached states: one spelling per template is enough (they must behave like TT)
             if t["variant"] == "cte" and st != "TT":
                 continue  # the pre-check takes the CTE reference for an unqualified table (C03's subject)
             if t["variant"] == "use-schema" and st == "FF":
                 continue  # without a current database DuckDB is asked for 'missing_database.NOS': a Binder error (C03's subject)
-            first_qual = t["qual"] == min(u["qual"] for u in tpls if (u["fmt"], u["cause"]) == (t["fmt"], t["cause"]))
+            first_qual = is_first_qual(tpls, t)
             for tx in ((False, True) if st == "TT" and first_qual else (False,)):
                 cases.append({"kind": "scen", **{k: t[k] for k in ("cause", "pos", "refKind", "qual", "variant")}, "sql": render(t), "state": st, "tx": tx})
     return cases
@@ -207,6 +216,8 @@ def _real_scen(case):
         for s in FIXTURE:
             k.execute(s)
         conn = c0 if case["state"] == "TT" else snowflake.connector.connect(**STATES[case["state"]][2])
+        for q in STATE_SETUP.get(case["state"], []):
+            conn.cursor().execute(q)
         conn.cursor().execute("set v1 = 5")
         cur = conn.cursor()
         if case["tx"]:
@@ -271,7 +282,37 @@ STMTS = {
     "raw-parse": ("selec 1", "x:0:1:-:-", None),
     "merge-second-call-fails": ("merge into t using t2 on t.a = t2.a when matched then update set nocol = 1", "x:0:0:-:11.0.-.-,11.1.-.-", "P:2043:02000"),
 }
+# statements used only in designed sequences (they need a particular state)
+EXTRA = {
+    "ok-select-tmp": ("select a from tmpx", "x:0:0:-:11.0.-.-", "ok"),
+    "describe-select": ("select * from t", "x:0:0:-:11.0.-.-", "ok"),          # op kind "B": cursor.describe(sql)
+    "use-schema-qualified": ("use schema db1.s1", "x:0:0:-:00.0.q.-", "ok"),
+    "use-database": ("use database db1", "x:0:0:-:00.0.d.-", "ok"),
+    "use-schema": ("use schema s1", "x:0:0:-:00.0.s.-", "ok"),
+}
+# checked `cursor.description` reads (op kind "D"): wire encoding of the DESCRIBE call + DuckDB's reaction, demanded outcome when open
+DESCR = {"plain": ("d:11.0.-.-", "ok"), "dropped-table": ("d:11.2.-.-", "P:2003:42S02"), "dropped-column": ("d:11.1.-.-", "P:2043:02000")}
 OTHERS = ["fetchall", "fetchone", "description", "rowcount", "fetchmany"]
+
+
+def stmt(name):
+    return STMTS[name] if name in STMTS else EXTRA[name]
+
+
+def designed_seqs():
+    out = []
+    for a in ("ok-select", "ok-const", "ok-insert", "set-var", "commit-no-tx"):
+        out.append({"kind": "seq", "ops": [["x", a], ["D", "plain"], ["c", "close"], ["D", "plain"], ["B", "describe-select"], ["D", "plain"], ["o", "fetchall"]]})
+    tmp = [["y", "create table tmpx (a int, b int)"], ["y", "insert into tmpx values (1, 2)"], ["x", "ok-select-tmp"], ["D", "plain"]]
+    out.append({"kind": "seq", "ops": tmp + [["y", "drop table tmpx"], ["D", "dropped-table"], ["o", "fetchall"], ["x", "ok-const"], ["D", "plain"]]})
+    out.append({"kind": "seq", "ops": tmp + [["y", "alter table tmpx drop column a"], ["D", "dropped-column"], ["x", "fail-table"], ["D", "dropped-column"]]})
+    out.append({"kind": "seq", "ops": tmp + [["y", "drop table tmpx"], ["c", "close"], ["D", "dropped-table"]]})
+    for x in ("ok-select", "fail-table", "fail-column", "fail-exists", "fail-values", "ok-insert"):
+        out.append({"kind": "seq", "state": "FF", "ops": [["x", x]]})
+        out.append({"kind": "seq", "state": "FF", "ops": [["x", "use-database"], ["x", x]]})
+        out.append({"kind": "seq", "state": "FF", "ops": [["x", "use-database"], ["x", "use-schema"], ["x", x], ["x", "ok-select"]]})
+        out.append({"kind": "seq", "state": "FF", "ops": [["x", "use-schema-qualified"], ["x", x], ["x", "ok-select"], ["x", "fail-table"]]})
+    return out
 
 
 def gen_seq(rnd, with_close):
@@ -299,28 +340,41 @@ def seq_cases(chk):
     for a in STMTS:
         cases.append({"kind": "seq", "ops": [["x", "fail-table"], ["c", "close"], ["x", a], ["o", "fetchall"], ["x", a]]})
         cases.append({"kind": "seq", "ops": [["c", "close"], ["x", a], ["o", "description"]]})
-    n = 150 if chk.tier == "quick" else 4000
+    cases += designed_seqs()
+    n = 100 if chk.tier == "quick" else 4000
     for i in range(n):
         cases.append({"kind": "seq", "ops": [list(o) for o in gen_seq(rnd, with_close=i % 3 == 0)]})
     return cases
 
 
-def _real_seq(case):
+def _real_seq(case, shared=None):
+    """`shared`: an instance whose fixture exists already - the sequence gets its own new connection (session variables, context and the
+    closed flag are per connection); sequences that create/drop objects through another cursor get a fresh instance"""
+    import contextlib
     import fakesnow
     import snowflake.connector
     out = []
-    with fakesnow.patch():
-        conn = snowflake.connector.connect(database="db1", schema="s1")
-        k = conn.cursor()
-        for s in FIXTURE:
-            k.execute(s)
+    with (contextlib.nullcontext() if shared else fakesnow.patch()):
+        if not shared:
+            k = snowflake.connector.connect(database="db1", schema="s1").cursor()
+            for s in FIXTURE:
+                k.execute(s)
+        conn = snowflake.connector.connect(**STATES[case.get("state", "TT")][2])
         cur = conn.cursor()
         for kind, name in case["ops"]:
             outcome = "-"
             try:
                 if kind == "x":
                     outcome = "ok"
-                    cur.execute(STMTS[name][0])
+                    cur.execute(stmt(name)[0])
+                elif kind == "B":
+                    outcome = "ok"
+                    cur.describe(stmt(name)[0])
+                elif kind == "D":
+                    outcome = "ok"
+                    cur.description
+                elif kind == "y":
+                    conn.cursor().execute(name)
                 elif kind == "c":
                     conn.close()
                 elif name == "fetchall":
@@ -334,7 +388,7 @@ def _real_seq(case):
                 elif name == "description":
                     cur.description
             except Exception as e:
-                outcome = enc_exc(e) if kind == "x" else "-"
+                outcome = enc_exc(e) if kind in ("x", "B", "D") else "-"
             out.append([outcome, cur.sqlstate])
     return out
 
@@ -344,7 +398,21 @@ def _real_seq(case):
 # ------------------------------------------------------------------------------------------------
 
 def _worker(shard):
-    return [(_real_seq if c["kind"] == "seq" else _real_scen)(c) for c in shard]
+    import fakesnow
+    import snowflake.connector
+    out = {}
+    share = [i for i, c in enumerate(shard) if c["kind"] == "seq" and not any(k == "y" for k, _ in c["ops"])]
+    if share:
+        with fakesnow.patch():
+            k = snowflake.connector.connect(database="db1", schema="s1").cursor()
+            for s in FIXTURE:
+                k.execute(s)
+            for i in share:
+                out[i] = _real_seq(shard[i], shared=True)
+    for i, c in enumerate(shard):
+        if i not in out:
+            out[i] = (_real_seq if c["kind"] == "seq" else _real_scen)(c)
+    return [out[i] for i in range(len(shard))]
 
 
 def _lines(cases):
@@ -356,8 +424,9 @@ def _lines(cases):
             a, b, _ = STATES[c["state"]]
             out.append("\t".join(["err", "scen", c["cause"], c["pos"], c["refKind"], str(c["qual"]), "1" if a else "0", "1" if b else "0"]))
         else:
-            ops = ";".join("o" if k == "o" else "c" if k == "c" else STMTS[n][1] for k, n in c["ops"])
-            out.append("\t".join(["err", "ops", "1", "1", "-", ops]))
+            ops = ";".join("o" if k in ("o", "y") else "c" if k == "c" else DESCR[n][0] if k == "D" else stmt(n)[1] for k, n in c["ops"])
+            a, b, _ = STATES[c.get("state", "TT")]
+            out.append("\t".join(["err", "ops", "1" if a else "0", "1" if b else "0", "-", ops]))
     return out
 
 
@@ -394,20 +463,26 @@ def _check_scen(chk, case, real, reply):
 def _check_seq(chk, case, real, reply):
     steps = reply["impl"].split(";")
     names = [n for _, n in case["ops"]]
-    chk.case(("seq", tuple(map(tuple, case["ops"]))), nontrivial=any(k == "x" and STMTS[n][2] not in ("ok", None) for k, n in case["ops"]))
+    state = case.get("state", "TT")
+    chk.case(("seq", state, tuple(map(tuple, case["ops"]))), nontrivial=any(k == "x" and stmt(n)[2] not in ("ok", None) for k, n in case["ops"]))
     closed = False
     for i, ((kind, name), (r_out, r_state), step) in enumerate(zip(case["ops"], real, steps)):
         m_out, m_state, _m_changed, key = step.split("|")
         m_state = None if m_state == "-" else m_state
-        chk.count(f"op:{name if kind != 'x' else 'execute'}")
+        chk.count(f"op:{'execute' if kind == 'x' else 'describe()' if kind == 'B' else 'description (checked)' if kind == 'D' else 'other-cursor' if kind == 'y' else name}")
         if kind == "c":
             closed = True
-        if kind == "x":
+        if kind in ("x", "B"):
             chk.count(f"stmt:{name}:{'closed' if closed else 'open'}")
-            spec_o = "D:250002:08003" if closed else STMTS[name][2]
+            spec_o = "D:250002:08003" if closed else stmt(name)[2]
+            if state != "TT" and not closed:
+                spec_o = m_out       # which pre-check / engine code applies in a USE-built state is the model's statement (C07_precheck, C07_use_schema_qualified)
             if spec_o is None:  # no demand by the property: the model's prediction is the reference ...
                 spec_o = m_out if key == "-" else "P:?:?"   # ... unless Lean places the statement in a finding region
             spec_state = spec_o.split(":")[2] if spec_o.startswith("P:") else None
+        elif kind == "D":
+            spec_o = "D:250002:08003" if closed else DESCR[name][1]
+            spec_state = m_state          # reading description never touches cursor.sqlstate
         else:
             spec_o, spec_state = "-", m_state
         if (r_out, r_state) == (spec_o, spec_state):
@@ -415,12 +490,13 @@ def _check_seq(chk, case, real, reply):
                 chk.violation(f"model inconsistency: op #{i} {name}: model {m_out}/{m_state} vs spec {spec_o}/{spec_state}", case, broken="C07_sqlstate_ops", failing_input=False)
                 return
             continue
-        what = (f"cursor ops {names}: op #{i} `{STMTS[name][0] if kind == 'x' else name}`{' on the closed connection' if closed else ''} gave {r_out} with cursor.sqlstate={r_state!r}; "
+        shown = stmt(name)[0] if kind == "x" else f"cursor.describe({stmt(name)[0]!r})" if kind == "B" else "cursor.description" if kind == "D" else name
+        what = (f"session {state}, ops {names}: op #{i} `{shown}`{' on the closed connection' if closed else ''} gave {r_out} with cursor.sqlstate={r_state!r}; "
                 f"required {spec_o} with cursor.sqlstate={spec_state!r}")
         if key != "-" and (r_out, r_state) == (m_out, m_state):
             chk.finding(key, what, case)
         else:
-            chk.violation(what, case, broken="C07_sqlstate / C07_sqlstate_ops / C07_closed (correspondence with Fs.Err.execute)")
+            chk.violation(what, case, broken="C07_sqlstate / C07_sqlstate_ops / C07_closed / C07_description_translated / C07_use_schema_qualified (correspondence with Fs.Err.execute)")
             return
 
 
@@ -445,6 +521,8 @@ def run(chk) -> None:
     chk.rule = ("A: every template of the cause x position table (13 causes, 10 positions, FROM/JOIN/subquery/CTE/IN, DML targets and sources, DDL targets "
                 "and sources, USE, DESCRIBE, COMMENT, SHOW, DROP DATABASE) x every qualification level x 3 session states x outside/inside a transaction, "
                 "fresh instance each, full before/after state snapshot + usability afterwards; B: all ordered pairs of 17 statement kinds with fetch/description "
+                "between, checked description / describe() after close and after the described object was dropped through another cursor, sessions built from "
+                "'no database' by USE DATABASE / USE SCHEMA / qualified USE SCHEMA, "
                 "between, close variants, random op sequences of 3-12 ops.  non-trivial = every scenario; a sequence containing a failing in-scope statement")
     shards = common.chunks(cases, 16)
     reals = common.shard_map(_worker, shards)
